@@ -275,7 +275,7 @@ func init() {
 		_ = b
 		b = e.c04Shape(s, th, "timeoutHandler.ServeHTTP", "serveHTTPShape", nil)
 		e.c04FlowDef(s, b, "serveHTTPFlow", "context/writer flow of timeoutHandler.ServeHTTP",
-			[]string{"context.WithTimeout", "WithContext(", "ServeHTTP(", "ErrorCtx(", "timedOut", "w.Write", "dst[k]", "WriteString", "&timeoutWriter"})
+			[]string{"context.WithTimeout", "WithContext(", "ServeHTTP(", "ErrorCtx(", "timedOut", "w.Write", "dst[k]", "WriteString", "&timeoutWriter", "make(chan", "panicChan <-", "close(done)", "panic(p)"})
 		e.c04Shape(s, th, "timeoutWriter.Write", "twWriteShape", nil)
 		e.c04Shape(s, th, "timeoutWriter.WriteHeader", "twWriteHeaderShape", nil)
 		e.c04Shape(s, th, "timeoutWriter.writeHeaderLocked", "twWriteHeaderLockedShape", nil)
